@@ -58,6 +58,27 @@ CLAIMS["C15"] = dict(
               "z3 nlsat (QF_NRA) equivalence with an even-odd oracle",
     ref="3/C15")
 
+CLAIMS["C16"] = dict(
+    text="The current text of downsampling.pyx (downsample_rand, "
+         "downsample_grid, populate_grid, valid; Cython declarations "
+         "stripped) and the real RTDCBase.get_downsampled_scatter/"
+         "_apply_scale are executed symbolically: (a) a cardinality "
+         "abstraction of downsample_grid with UNBOUNDED symbolic sizes in "
+         "which every np.random.choice precondition and every count claim is "
+         "an SMT obligation, (b) concrete shapes N<=3(4) with symbolic "
+         "values/NaN flags/filter bits/request size for subset, alignment, "
+         "count and reproducibility. Two known findings (request larger than "
+         "the data with remove_invalid=False) are reported as KNOWN-FINDING.",
+    note="Trusted: z3, symx, numpy shim, the contracts of np.random.choice "
+         "and populate_grid/norm inside downsample_grid (populate_grid's loop "
+         "is checked separately on a 2x2 grid). The compiled extension cannot "
+         "be rebuilt here: the .pyx text is analysed, counterexamples are "
+         "replayed on both source and binary.",
+    technique="symbolic execution of stripped .pyx and real Python + z3 "
+              "(LIA cardinality abstraction with unbounded sizes; bounded "
+              "element-wise encoding)",
+    ref="3/C16")
+
 NOT_APPLICABLE = {
 }
 
